@@ -215,9 +215,26 @@ def run_tables(cfg, counters, violations, samples):
     pats = all_patterns(min(maxp, 3))
     paths = all_paths(min(maxs, 3))
     distinct = set()
+    # overlapping tables: for some paths, the patterns that match them (literal and parameterised ones): tables built from those
+    # have several matching routes, so the ORDER of registration decides
+    parsed_pats = [(pt, parse_pattern(pt)) for pt in pats]
+    overlap = []
+    for pth in r.sample(paths, min(len(paths), 80)):
+        ms = [pt for pt, pp in parsed_pats if ref_match(pp, pth)[0] == MATCH]
+        if len(ms) >= 2:
+            overlap.append((pth, ms))
     for case in range(cfg["n"]):
         k = r.randint(1, 4)
         chosen = [(r.choice(pats), r.choice(["GET", "POST"])) for _ in range(k)]
+        hot_path = None
+        if overlap and case % 3 == 0:
+            hot_path, ms = r.choice(overlap)
+            k = r.randint(2, 4)
+            meth_ = r.choice(["GET", "POST"])
+            chosen = [(pt, meth_) for pt in r.sample(ms, min(len(ms), k - 1))] + [(r.choice(pats), meth_)]
+            r.shuffle(chosen)
+            k = len(chosen)
+            counters.inc("overlapping_tables")
         ws_flags = [r.random() < 0.15 for _ in range(k)]         # some GET routes are websocket routes
         for order in (itertools.permutations(range(k)) if k <= 3 else [tuple(r.sample(range(k), k))]):
             router = Router()
@@ -279,6 +296,8 @@ def run_tables(cfg, counters, violations, samples):
             parsed = [parse_pattern(rt.pattern) for rt in routes]
             for _k in range(12):
                 path = r.choice(paths) if case % 2 else paths_for_case[_k]
+                if hot_path is not None and _k < 3:
+                    path = hot_path
                 method = r.choice(["GET", "POST", "PUT", "DELETE"]) if case % 2 else r.choice(["GET", "POST"])
                 want = None
                 unspec = False
@@ -386,7 +405,7 @@ def finish(tier, seed, results):
     inconclusive = []
     need(m["counters"], ["pairs", "ref_match", "ref_nomatch", "bindings_checked", "table_lookups",
                          "dispatch_404", "dispatch_routed", "lookups_between_registrations", "tables_from_resource_classes",
-                         "dispatch_websocket_route_without_upgrade", "patterns_spelled_with_extra_slashes"], inconclusive)
+                         "dispatch_websocket_route_without_upgrade", "patterns_spelled_with_extra_slashes", "overlapping_tables"], inconclusive)
     maxp, maxs = BOUNDS[tier]
     cov = {
         "evaluations": m["evaluations"],
